@@ -87,7 +87,7 @@ CATALOGUE = [
     # derive, then mutate the derived object in place
     ('or_then_ior', 3), ('sub_then_isub', 3), ('copy_then_top', 2), ('configure_then_rearrange', 3),
     ('configure_then_reset_variables', 3), ('or_then_sort', 2), ('indicate_then_ior', 2),
-    ('parse_then_edit_metadata', 3),
+    ('parse_then_edit_metadata', 3), ('fresh_model_decode', 3),
     # lazy decoders
     ('iter_open', 2), ('iter_next', 4),
 ]
@@ -343,6 +343,18 @@ def run_op(w, op, local):
         tt = layout.configure(g, model=model)
         tt.reset_variables(['{prefix}{j}', 'a{i}', '{prefix}{i}'][op['a'] % 3])
         return tt
+    if name == 'fresh_model_decode':
+        # short-lived model objects (what penman.decode(s) without a model, or a caller building a
+        # Model per request, produce): results must not depend on which objects lived before
+        from penman.model import Model
+        specs = [{}, gmodels.CUSTOM_SPECS[0], gmodels.CUSTOM_SPECS[1], {'roles': {':consist-of': {}, ':x-of': {}}}]
+        out = []
+        for k in range(3):
+            sp = specs[(op['a'] + k) % len(specs)]
+            m = Model(**{kk: ([tuple(r) for r in v] if kk == 'reifications' else v) for kk, v in sp.items()})
+            out.append(penman.encode(penman.decode(w.texts[(x + k) % n], model=m), model=m))
+            del m
+        return out
     if name == 'parse_then_edit_metadata':
         # the tree returned by parse is the caller's own: annotating it must not leak anywhere
         tt = penman.parse(text if op['a'] % 2 else '(z9 / no-comment :ARG0 (y9 / here))')
